@@ -33,8 +33,8 @@ def mc_consts(ctx, which):
         if q:
             return {"CAPS": "1,2,3", "MAXW": 3, "MAXR": 2, "WRITES": 3, "COPS": 3, "ERRREADS": 2,
                     "CERRS": '"eof","e1"', "BERRS": '"e2"', "SIGW": "TRUE", "SIGC": "TRUE"}
-        return {"CAPS": "1,2,3", "MAXW": 4, "MAXR": 3, "WRITES": 4, "COPS": 3, "ERRREADS": 2,
-                "CERRS": '"eof","e1","e2"', "BERRS": '"eof","e2"', "SIGW": "TRUE", "SIGC": "TRUE"}
+        return {"CAPS": "1,2,3", "MAXW": 3, "MAXR": 3, "WRITES": 4, "COPS": 3, "ERRREADS": 2,
+                "CERRS": '"eof","e1"', "BERRS": '"eof","e2"', "SIGW": "TRUE", "SIGC": "TRUE"}
     if q:
         return {"CAPS": "2", "MAXW": 3, "MAXR": 2, "WRITES": 2, "COPS": 2, "ERRREADS": 2,
                 "CERRS": '"eof","e1"', "BERRS": '"e2"', "SIGW": "TRUE", "SIGC": "TRUE"}
@@ -262,8 +262,6 @@ def run_all(ctx, sched_cases, conc_cases, label="", selftest=True):
             len(expected_reject) - len(missed), len(expected_reject), ",".join(sorted(expected_reject.values())))
         if missed:
             raise vlib.MachineryError("binding self-test: TracePipe accepted corrupted traces: %s" % missed)
-    for d in rep[0]["drift"][:3]:
-        pass
     if rep[0]["drift"]:
         ex = rep[0]["drift"][0]
         ctx.drift("action=hook-view %d event(s): buffered length / flags seen by the hook differ from the model, e.g. %s at %s"
@@ -333,13 +331,13 @@ PROPS = {"C21": check_c21}
 
 def replay(ctx, pid, rep):
     c = rep["case"]
-    mode, case = c["mode"], c["case"]
-    if mode == "replay":
-        n = run_all(ctx, [dict(case)], [], label="replay", selftest=False)
-    elif "cases" in c:
+    mode, case = c["mode"], c.get("case")
+    if "cases" in c:
         # a race report: run the whole batch again
         cs = [dict(x) for x in c["cases"]]
         n = run_all(ctx, cs if mode == "replay" else [], cs if mode == "conc" else [], label="replay", selftest=False)
+    elif mode == "replay":
+        n = run_all(ctx, [dict(case)], [], label="replay", selftest=False)
     else:
         # a concurrent scenario is not deterministic: run it many times
         n = run_all(ctx, [], [dict(case) for _ in range(200)], label="replay", selftest=False)
